@@ -248,6 +248,7 @@ func runC09(c *core.Ctx) {
 		c.Obs("tasks", 1)
 		c.Sample("task", map[string]any{"fn": name, "enumeration": kind, "index_range": []uint64{t.lo, t.hi}, "values": count})
 	}
+	flushScanObs(c)
 	c.Floor("tasks", int64(len(tasks)))
 	c.Floor("level_zero_checked", 22)
 	c.Floor("level_lowest_checked", 22)
